@@ -200,6 +200,10 @@ func genLedgerWith(b ledgerBias) func(r *prng, seed uint64, tier string) *Plan {
 			nSteps *= 2
 		}
 		partitioned := false
+		textP := 0.0
+		if r.Chance(0.15) {
+			textP = 0.15 // this run also sends spice to receivers that are not wallet addresses
+		}
 		var proposals []int
 		for len(p.Steps) < nSteps {
 			node := r.Intn(cfg.Nodes)
@@ -326,9 +330,18 @@ func genLedgerWith(b ledgerBias) func(r *prng, seed uint64, tier string) *Plan {
 			if r.Chance(0.25) {
 				st.Via = []string{"notary", "ledger"}[r.Intn(2)]
 			}
+			if st.Op == "propose" && st.Data == 0 && r.Chance(textP) {
+				// the receiver of a transfer is free text for the ledger and for the notary's Propose
+				st.ToText = []string{"b32", "b32", "empty", "lastvertex", "vhash", "huge"}[r.Intn(6)]
+				if st.ToText == "vhash" {
+					st.Via = "ledger" // raw hash bytes are not valid UTF-8: only the ledger API takes them
+				}
+			}
 			if amt.Cmp(m.bal[from]) <= 0 {
 				m.bal[from].Sub(m.bal[from], amt)
-				m.bal[to].Add(m.bal[to], amt)
+				if st.ToText == "" {
+					m.bal[to].Add(m.bal[to], amt)
+				}
 			}
 			if st.Op == "propose" {
 				proposals = append(proposals, len(p.Steps))
